@@ -121,6 +121,9 @@ def gen_frame_spec(rng, geom=None, routes=None):
 def marker_data(spec):
     """Distinct pixels: noise plus a column marker, so a flip or shift cannot hide."""
     g = spec["geom"]
+    if spec.get("content") == "constant":
+        # a featureless pedestal: zero deviation, non-zero mean
+        return np.full((g["tchans"], g["fchans"]), float(spec.get("content_value", 7.25)))
     r = _REAL_DEFAULT_RNG([spec["content_seed"], 11])
     d = r.normal(10.0, 1.0, size=(g["tchans"], g["fchans"]))
     d += np.arange(g["fchans"])[None, :] * 0.37
